@@ -14,7 +14,7 @@ from ural.normalize_url import normalize_url
 from ural.fingerprint_url import fingerprint_url
 from ural.has_special_host import is_special_host
 
-PORT_SPLITTER = re.compile(r":(?![0-9a-fA-F:.]+])")
+PORT_SPLITTER = re.compile(r":(?![0-9a-fA-F:.]*])")
 
 
 def lru_stems_from_parsed_url(parsed_url, suffix_aware=True):
